@@ -106,7 +106,7 @@ func (c *fake) Joined(g, kind string) error {
 	return nil
 }
 func (c *fake) PushClient(g, kind, id, username string, perms []string, data map[string]interface{}) error {
-	if kind == "add" || kind == "delete" {
+	if (kind == "add" || kind == "delete") && g == *groupName.Load() {
 		emit(map[string]any{"ev": "announce", "to": c.id, "kind": kind, "id": id})
 	}
 	return nil
@@ -494,6 +494,95 @@ func runConc(tr *vt.Trace, r *rand.Rand, round int) {
 	flush(tr)
 }
 
+// counts goroutines of the code under test that are blocked acquiring a mutex
+func mutexBlocked(stacks string) int {
+	n := 0
+	for _, g := range strings.Split(stacks, "\n\n") {
+		if strings.Contains(g, "github.com/jech/galene/") &&
+			(strings.Contains(g, "sync.(*Mutex).Lock") || strings.Contains(g, "sync.(*Mutex).lockSlow") ||
+				strings.Contains(g, "sync.(*RWMutex).")) {
+			n++
+		}
+	}
+	return n
+}
+
+// idle groups that are due for expiry (max-history-age of one second, no clients) while
+// group.Update runs concurrently with joins to those very groups, statistics and listings
+func expiryStorm(tr *vt.Trace, r *rand.Rand) {
+	base := newGroup(cfgT{Window: "open"}, "expiry-storm")
+	names := []string{}
+	for i := 0; i < 4; i++ {
+		n := fmt.Sprintf("%s-e%d", base, i)
+		names = append(names, n)
+		// a negative history age makes an empty group due for expiry at once, so that every pass
+		// of Update tries to expire it while clients keep coming and going
+		d := map[string]any{"max-history-age": -1,
+			"wildcard-user": map[string]any{"password": "p", "permissions": "present"}}
+		b, _ := json.Marshal(d)
+		os.WriteFile(filepath.Join(dir, n+".json"), b, 0600)
+		group.Add(n, nil)
+	}
+	seeds := []int64{}
+	for j := 0; j < 8; j++ {
+		seeds = append(seeds, r.Int63())
+	}
+	yieldOn.Store(true)
+	ok := within(20*time.Second, func() {
+		var wg sync.WaitGroup
+		for i := 0; i < 3; i++ {
+			wg.Add(1)
+			go func() {
+				defer wg.Done()
+				for k := 0; k < 40; k++ {
+					group.Update()
+				}
+			}()
+		}
+		for j := 0; j < 8; j++ {
+			wg.Add(1)
+			go func(j int) {
+				defer wg.Done()
+				rr := rand.New(rand.NewSource(seeds[j]))
+				for k := 0; k < 150; k++ {
+					n := names[rr.Intn(len(names))]
+					c := &fake{id: fmt.Sprintf("x%d", j)}
+					u := c.id
+					cr := pw()
+					cr.Username = &u
+					if g, err := group.AddClient(n, c, cr); err == nil {
+						c.setGroup(g)
+						group.DelClient(c)
+					}
+				}
+			}(j)
+		}
+		wg.Add(1)
+		go func() {
+			defer wg.Done()
+			for i := 0; i < 40; i++ {
+				group.GetPublic(nil)
+				group.GetSubGroups(base)
+				group.GetNames()
+			}
+		}()
+		wg.Wait()
+	})
+	yieldOn.Store(false)
+	res := map[string]any{"ev": "witness", "name": "expiry_storm_Update_vs_joins", "completed": vt.B(ok)}
+	if !ok {
+		st := allStacks()
+		res["mutex_blocked"] = mutexBlocked(st)
+		res["close_blocked"], res["add_blocked"] = 0, vt.B(blockedInMutex(st, "group.AddClient") || blockedInMutex(st, "group.add"))
+	}
+	emit(res)
+	flush(tr)
+	if !ok {
+		tr.Close()
+		os.Exit(0)
+	}
+}
+
 // ------------------------------------------------------------------ C13 witnesses
 
 func allStacks() string {
@@ -635,8 +724,19 @@ func main() {
 			runSeq(tr, randomSeq(r), "random")
 		}
 	case "conc":
+		if vt.EnvInt("VERIF_STORM", 0) > 0 {
+			expiryStorm(tr, r)
+		}
 		for i := 0; i < vt.EnvInt("VERIF_N", 100); i++ {
-			runConc(tr, r, i)
+			i := i
+			if !within(30*time.Second, func() { runConc(tr, r, i) }) {
+				st := allStacks()
+				emit(map[string]any{"ev": "witness", "name": "racing_round_never_finished", "completed": 0,
+					"mutex_blocked": mutexBlocked(st), "close_blocked": 0, "add_blocked": vt.B(blockedInMutex(st, "group.AddClient"))})
+				flush(tr)
+				tr.Close()
+				os.Exit(0)
+			}
 		}
 	case "witness":
 		// one witness per process: a deadlocked group would block the next one
